@@ -407,6 +407,14 @@ def encZero (enc : List (Key × Enc)) (k : Key) (v : Val) : Res Val :=
   | some e => e.apply v
   | none => .error .keyError
 
+/-- LazySparse: the stored value of raw key `k`, `"0"` for an absent "not sparse" column, else KeyError; then encoded -/
+def lazyValue (enc : List (Key × Enc)) (raw : Dict) (nsp : List Key) (k : Key) : Res Val :=
+  match (match dget raw k with
+         | some v => some v
+         | none => if nsp.contains k then some (Val.str "0") else none) with
+  | none => .error .keyError
+  | some v => if enc.isEmpty then .ok v else lazyApply (encOf enc k) v
+
 namespace SRow
 
 def missing : SRow → Res Bool
@@ -462,13 +470,7 @@ def len : SRow → Res Nat
 
 def get : SRow → Key → Res Val
   | plain d, k => match dget d k with | some v => .ok v | none => .error .keyError
-  | lazy c enc nsp fwd _ _, k =>
-    let k' := (dget fwd k).getD k
-    match (match dget c.get k' with
-           | some v => some v
-           | none => if nsp.contains k' then some (Val.str "0") else none) with
-    | none => .error .keyError
-    | some v => if enc.isEmpty then .ok v else lazyApply (encOf enc k') v
+  | lazy c enc nsp fwd _ _, k => lazyValue enc c.get nsp ((dget fwd k).getD k)
   | head r fwd _, k => match dget fwd k with | some k' => get r k' | none => .error .keyError
   | encode r enc nsp, k =>
     match get r k with
@@ -582,18 +584,25 @@ inductive Stage
 
 def onehotOf (s : String) (lv : List String) : List Int := lv.map (fun l => if l = s then 1 else 0)
 
-def hasCat (vs : List Val) : Bool := vs.any (fun v => match v with | .cat _ _ => true | _ => false)
+
+def isCat : Val → Bool
+  | .cat _ _ => true
+  | _ => false
+
+def hasCat (vs : List Val) : Bool := vs.any isCat
+
+/-- what EncodeCatRows puts in the place of one cell -/
+def encodeCatCell (m : CatMode) (v : Val) : List Val :=
+  match v with
+  | .cat s lv =>
+    match m with
+    | .string => [Val.str s]
+    | .onehotTuple => [Val.tup (onehotOf s lv)]
+    | .onehot => (onehotOf s lv).map Val.int
+  | v => [v]
 
 /-- EncodeCatRows on a list -/
-def catEncodeList (m : CatMode) (vs : List Val) : List Val :=
-  vs.flatMap (fun v =>
-    match v with
-    | .cat s lv =>
-      match m with
-      | .string => [Val.str s]
-      | .onehotTuple => [Val.tup (onehotOf s lv)]
-      | .onehot => (onehotOf s lv).map Val.int
-    | v => [v])
+def catEncodeList (m : CatMode) (vs : List Val) : List Val := vs.flatMap (encodeCatCell m)
 
 def keyStr : Key → String
   | .pos n => toString n
@@ -736,6 +745,19 @@ def applyS : Stage → SRow → Res (Option SRow)
     | .ok its =>
       let d := SRow.toDict its
       if hasCatD d then .ok (some (.plain (catEncodeDict m d))) else .ok (some r)
+
+def isName : Key → Bool
+  | .name _ => true
+  | .pos _ => false
+
+/-- the stages do not address a hidden raw key of a header-mapped LazySparse base (`leaky` = the row below still has such keys):
+a HeadRows directly over it must name header names, a row predicate `row[k]==v` must use a header name -/
+def leakSafe : Bool → List Stage → Bool
+  | _, [] => true
+  | leaky, .headNames _ :: rest => !leaky && leakSafe false rest
+  | leaky, .headMap m :: rest => (!leaky || m.all (fun p => isName p.2)) && leakSafe false rest
+  | leaky, .drop _ (some (.cellEq k _)) :: rest => (!leaky || isName k) && leakSafe leaky rest
+  | leaky, _ :: rest => leakSafe leaky rest
 
 def buildD : List Stage → DRow → Res (Option DRow)
   | [], r => .ok (some r)
@@ -1177,5 +1199,118 @@ def eagerTableS (stages : List Stage) (rows : List SBase) : Res (List EagerS) :=
   match mapMRes (fun b => match eagerBaseS b with | .ok e => eagerS stages e | .error er => .error er) rows with
   | .ok rs => .ok (rs.filterMap id)
   | .error e => .error e
+
+/-! ## the first row of a table
+
+`HeadRows/EncodeRows/DropRows/LabelRows/EncodeCatRows.filter` peek at the first incoming row and derive their
+arguments from it (`first.headers`, `len(first)`, the positions of the categoricals in `first`); `applyD` above
+derives them from each row itself.  `applyD1` is the literal version; `sameShape` says when the two coincide. -/
+
+/-- `catkey(first)`: the positions of the categorical cells -/
+def catIdx (vs : List Val) : List Nat := (vs.zipIdx.filter (fun p => isCat p.1)).map (·.2)
+
+/-- `catset` on one cell that `first` has as categorical: `str(o[k])` / `o[k].as_onehot` -/
+def encodeCell (m : CatMode) (v : Val) : Res (List Val) :=
+  if isCat v then .ok (encodeCatCell m v)
+  else
+    match m with
+    | .string => match Enc.toStr.apply v with | .ok x => .ok [x] | .error e => .error e
+    | _ => .error .attrError
+
+/-- EncodeCatRows on a list with the categorical positions `ks` taken from the first row -/
+def catEncodeAt (m : CatMode) (ks : List Nat) (vs : List Val) : Res (List Val) :=
+  if ks.all (fun k => k < vs.length) then
+    match sequence (vs.zipIdx.map (fun p => if ks.contains p.2 then encodeCell m p.1 else .ok [p.1])) with
+    | .ok parts => .ok parts.flatten
+    | .error e => .error e
+  else .error .indexError
+
+/-- one `*Rows.filter` on one dense row, its arguments derived from the first row `f` of the incoming table -/
+def applyD1 : Stage → DRow → DRow → Res (Option DRow)
+  | .encodeMap m, f, r => .ok (some (.encode r (encsOf m f)))
+  | .drop cols pred, f, r =>
+    match evalPredD pred r with
+    | .error e => .error e
+    | .ok false => .ok none
+    | .ok true =>
+      if cols.isEmpty then .ok (some r)
+      else
+        let a := dropArgsOf f cols
+        .ok (some (.keep r a.1 a.2.1 a.2.2.1 a.2.2.2.1 a.2.2.2.2))
+  | .label (.name s) t, f, r =>
+    match f.headers with
+    | .error e => .error e
+    | .ok h => match dget h s with | some i => .ok (some (.label r i t)) | none => .error .keyError
+  | .enccat (some m), f, r =>
+    match f.iter with
+    | .error e => .error e
+    | .ok fv =>
+      if (catIdx fv).isEmpty then .ok (some r)
+      else
+        match r.iter with
+        | .error e => .error e
+        | .ok vs => match catEncodeAt m (catIdx fv) vs with | .ok o => .ok (some (.plain o)) | .error e => .error e
+  | st, _, r => applyD st r
+
+/-- the two rows look alike to the filters: same length, same header map, categoricals at the same positions -/
+def sameShape (f r : DRow) : Bool :=
+  f.len == r.len &&
+  (match f.headers, r.headers with | .ok a, .ok b => a == b | .error _, .error _ => true | _, _ => false) &&
+  (match f.iter, r.iter with | .ok a, .ok b => catIdx a == catIdx b | _, _ => false)
+
+def collect {α} (rs : Res (List (Option α))) : Res (List α) :=
+  match rs with
+  | .ok l => .ok (l.filterMap id)
+  | .error e => .error e
+
+/-- one stage over a table, arguments from its first row (as the code does) -/
+def stageTable1 (st : Stage) (rows : List DRow) : Res (List DRow) :=
+  match rows with
+  | [] => .ok []
+  | f :: _ => collect (mapMRes (applyD1 st f) rows)
+
+/-- one stage over a table, arguments from each row itself (what the per-row theorems are about) -/
+def stageTable0 (st : Stage) (rows : List DRow) : Res (List DRow) := collect (mapMRes (applyD st) rows)
+
+def runStages1 : List Stage → List DRow → Res (List DRow)
+  | [], rows => .ok rows
+  | st :: rest, rows => match stageTable1 st rows with | .ok rows' => runStages1 rest rows' | .error e => .error e
+
+def runStages0 : List Stage → List DRow → Res (List DRow)
+  | [], rows => .ok rows
+  | st :: rest, rows => match stageTable0 st rows with | .ok rows' => runStages0 rest rows' | .error e => .error e
+
+/-- at every stage all incoming rows look like the first one -/
+def uniformRun : List Stage → List DRow → Bool
+  | [], _ => true
+  | st :: rest, rows =>
+    (match rows with | [] => true | f :: _ => rows.all (sameShape f)) &&
+    (match stageTable1 st rows with | .ok rows' => uniformRun rest rows' | .error _ => true)
+
+/-- the dense table as the code computes it: stage after stage, every stage looking at the first incoming row -/
+def tableD1 (stages : List Stage) (rows : List DBase) : Res (List DRow) := runStages1 stages (rows.map baseD)
+
+/-! ## one set of filter objects, several tables -/
+
+inductive Table
+  | dense (rows : List DBase)
+  | sparse (rows : List SBase)
+  deriving Repr
+
+inductive TableOut
+  | dense (r : Res (List DRow))
+  | sparse (r : Res (List SRow))
+
+/-- one `filter()` call of every filter object of the pipeline on one table: what comes out, and the filter objects
+afterwards.  None of the `*Rows.filter` methods assigns an attribute of `self` (the arguments derived from the
+first row are locals), so the objects are what they were. -/
+def runTable (fs : List Stage) : Table → TableOut × List Stage
+  | .dense rows => (.dense (tableD1 fs rows), fs)
+  | .sparse rows => (.sparse (tableS fs rows), fs)
+
+/-- the same filter objects process the tables one after the other -/
+def session : List Stage → List Table → List TableOut
+  | _, [] => []
+  | fs, t :: ts => (runTable fs t).1 :: session (runTable fs t).2 ts
 
 end Coba.C13
